@@ -86,16 +86,33 @@ def exc_name(e):
     return (t.__module__ + "." if t.__module__ not in ("builtins",) else "") + t.__name__
 
 
-def site_of(e):
-    """innermost frame inside the dns package: 'dns/zonefile.py:read'"""
+def _frames(e):
+    out = []
     tb = e.__traceback__
-    site = "?"
     while tb is not None:
         fn = tb.tb_frame.f_code.co_filename
         if "/dns/" in fn:
-            site = "dns/" + fn.split("/dns/", 1)[1] + ":" + tb.tb_frame.f_code.co_name
+            code = tb.tb_frame.f_code
+            out.append(("dns/" + fn.split("/dns/", 1)[1], getattr(code, "co_qualname", code.co_name)))
         tb = tb.tb_next
-    return site
+    return out
+
+
+def site_of(e):
+    """innermost frame inside the dns package: 'dns/zonefile.py:Reader.read'"""
+    fr = _frames(e)
+    return "?" if not fr else fr[-1][0] + ":" + fr[-1][1]
+
+
+def via_of(e):
+    """deepest frame inside the module of the entry point (the outermost dns frame's file):
+    'dns/message.py:_TextReader._header_line'"""
+    fr = _frames(e)
+    if not fr:
+        return "?"
+    home = fr[0][0]
+    last = [f for f in fr if f[0] == home][-1]
+    return last[0] + ":" + last[1]
 
 
 def allowed(entry, e):
@@ -367,6 +384,7 @@ def run_probe(entry, payload, seconds=10.0):
                 "entry": entry,
                 "exception": exc_name(exc),
                 "site": site_of(exc),
+                "via": via_of(exc),
                 "what": f"{entry} raised {exc_name(exc)}: {str(exc)[:120]} [{site_of(exc)}]",
                 "sig": entry + ":" + exc_name(exc) + ":" + site_of(exc),
                 "probe": [entry, payload],
@@ -479,6 +497,7 @@ def run_probe(entry, payload, seconds=10.0):
             "stage": st,
             "exception": exc_name(e),
             "site": site_of(e),
+            "via": via_of(e),
             "what": f"value returned by {entry} raised {exc_name(e)} in {st}: {str(e)[:100]} [{site_of(e)}]",
             "sig": entry + ":" + st + ":" + exc_name(e) + ":" + site_of(e),
             "probe": [entry, payload],
